@@ -63,3 +63,606 @@ Proof. intros. apply same_text_adv; reflexivity. Qed.
 Lemma set_sub_rel : forall i, adv_rel i (set_sub i).
 Proof. intros. apply same_text_adv; reflexivity. Qed.
 
+Lemma flag_toggles_rel : forall fuel i any i', flag_toggles fuel i any = Some i' -> adv_rel i i'.
+Proof.
+  induction fuel as [|f IH]; intros i any i' H; cbn [flag_toggles] in H.
+  - destruct any; [|discriminate]. inversion H; subst. apply adv_refl.
+  - assert (Hstop : (if any then Some i else None) = Some i' -> adv_rel i i').
+    { intros H0. destruct any; [|discriminate]. inversion H0; subst. apply adv_refl. }
+    destruct (i_s i) as [|c r] eqn:E; [exact (Hstop H)|].
+    destruct (c =? c_i).
+    + apply IH in H. eapply adv_trans; [|exact H]. eapply adv_trans; [apply (adv1_rel i c r E)|apply set_ci_rel].
+    + destruct (c =? c_minus); [|exact (Hstop H)].
+      destruct r as [|c2 r2]; [exact (Hstop H)|]. destruct (c2 =? c_i); [|exact (Hstop H)].
+      apply IH in H. eapply adv_trans; [|exact H].
+      eapply adv_trans; [apply (adv1_rel i c (c2 :: r2) E)|].
+      eapply adv_trans; [apply (adv1_rel _ c2 r2); reflexivity|apply set_ci_rel].
+Qed.
+
+Lemma flag_group_rel : forall i i', flag_group i = Some i' -> adv_rel i i'.
+Proof.
+  intros i i' H. unfold flag_group in H. destruct (i_s i) as [|c1 [|c2 r]] eqn:E; try discriminate.
+  destruct ((c1 =? c_lparen) && (c2 =? c_qmark)); [|discriminate].
+  destruct (flag_toggles (length r) _ false) as [i2|] eqn:Et; [|discriminate].
+  apply flag_toggles_rel in Et. apply tag1_rel in H.
+  eapply adv_trans; [apply (adv1_rel i c1 (c2 :: r) E)|]. eapply adv_trans; [apply (adv1_rel _ c2 r); reflexivity|].
+  eapply adv_trans; eassumption.
+Qed.
+
+Lemma flags_with_state_f_rel : forall fuel i, adv_rel i (flags_with_state_f fuel i).
+Proof.
+  induction fuel as [|f IH]; intros i; cbn [flags_with_state_f]; [apply adv_refl|].
+  destruct (flag_group i) as [i'|] eqn:E; [|apply adv_refl]. eapply adv_trans; [apply flag_group_rel; exact E|apply IH].
+Qed.
+
+Lemma flags_with_state_rel : forall i, adv_rel i (flags_with_state i).
+Proof. intros. apply flags_with_state_f_rel. Qed.
+
+(* ---- literals and classes: what is consumed is a prefix of the remaining text ------------------------------------------ *)
+Lemma lit_chars_suffix_n : forall n s t rest, (length s <= n)%nat -> lit_chars s = Some (t, rest) -> exists c, s = c ++ rest.
+Proof.
+  induction n as [|n IH]; intros s t rest Hn H.
+  - destruct s; [|cbn in Hn; lia]. cbn in H. inversion H; subst. exists []. reflexivity.
+  - destruct s as [|c s]; [cbn in H; inversion H; subst; exists []; reflexivity|]. cbn [lit_chars] in H. cbn [length] in Hn.
+    destruct (c =? BSLASH).
+    + destruct s as [|d s']; [discriminate|]. destruct (mem d LIT_ESCAPABLE); [|discriminate].
+      destruct (lit_chars s') as [[t' rest']|] eqn:E; [|discriminate]. inversion H; subst.
+      destruct (IH s' t' rest) as [c0 ->]; [cbn [length] in Hn; lia|exact E|]. exists (c :: d :: c0). reflexivity.
+    + destruct (mem c LIT_SPECIAL); [inversion H; subst; exists []; reflexivity|].
+      destruct (lit_chars s) as [[t' rest']|] eqn:E; [|discriminate]. inversion H; subst.
+      destruct (IH s t' rest) as [c0 ->]; [lia|exact E|]. exists (c :: c0). reflexivity.
+Qed.
+
+Lemma lit_chars_suffix : forall s t rest, lit_chars s = Some (t, rest) -> exists c, s = c ++ rest.
+Proof. intros s t rest. apply (lit_chars_suffix_n (length s)). lia. Qed.
+
+Lemma consumed_of_app : forall c rest, consumed_of (c ++ rest) rest = c.
+Proof.
+  intros c rest. unfold consumed_of. rewrite app_length. replace (length c + length rest - length rest)%nat with (length c) by lia.
+  rewrite firstn_app, Nat.sub_diag, firstn_all. cbn. apply app_nil_r.
+Qed.
+
+Lemma p_literal_rel : forall i l i', p_literal i = Some (l, i') -> adv_rel i i'.
+Proof.
+  intros i l i' H. unfold p_literal in H. destruct (lit_chars (i_s i)) as [[text rest]|] eqn:E; [|discriminate].
+  destruct (is_nil text); [discriminate|]. inversion H; subst. destruct (lit_chars_suffix _ _ _ E) as [c Hc].
+  apply adv_rel_adv. rewrite Hc, consumed_of_app. reflexivity.
+Qed.
+
+Lemma class_char_suffix : forall s a r, class_char s = Some (a, r) -> exists c, s = c ++ r.
+Proof.
+  intros s a r H. unfold class_char in H. destruct s as [|c s]; [discriminate|]. destruct (c =? BSLASH).
+  - destruct s as [|d s']; [discriminate|]. destruct (mem d CLASS_ESCAPABLE); [|discriminate]. inversion H; subst. exists [c; a]. reflexivity.
+  - destruct (mem c CLASS_SPECIAL); [discriminate|]. inversion H; subst. exists [a]. reflexivity.
+Qed.
+
+Lemma class_arch_suffix : forall s a r, class_arch s = Some (a, r) -> exists c, s = c ++ r.
+Proof.
+  intros s a r H. unfold class_arch in H. destruct (class_char s) as [[x r0]|] eqn:E; [|discriminate].
+  destruct (class_char_suffix _ _ _ E) as [c0 ->].
+  destruct r0 as [|c r1]; [inversion H; subst; exists c0; reflexivity|].
+  destruct (c =? c_minus); [|inversion H; subst; exists c0; reflexivity].
+  destruct (class_char r1) as [[b r2]|] eqn:E2; [|inversion H; subst; exists c0; reflexivity].
+  inversion H; subst. destruct (class_char_suffix _ _ _ E2) as [c1 ->]. exists (c0 ++ c :: c1). rewrite <- app_assoc. reflexivity.
+Qed.
+
+Lemma class_archs_suffix : forall fuel s l r, class_archs fuel s = (l, r) -> exists c, s = c ++ r.
+Proof.
+  induction fuel as [|f IH]; intros s l r H; cbn [class_archs] in H.
+  - inversion H; subst. exists []. reflexivity.
+  - destruct (class_arch s) as [[a r0]|] eqn:E; [|inversion H; subst; exists []; reflexivity].
+    destruct (class_archs f r0) as [l' r'] eqn:E2. inversion H; subst.
+    destruct (class_arch_suffix _ _ _ E) as [c0 ->]. destruct (IH _ _ _ E2) as [c1 ->].
+    exists (c0 ++ c1). rewrite <- app_assoc. reflexivity.
+Qed.
+
+Lemma p_class_rel : forall i l i', p_class i = Some (l, i') -> adv_rel i i'.
+Proof.
+  intros i l i' H. unfold p_class in H. destruct (i_s i) as [|c r] eqn:E; [discriminate|].
+  destruct (c =? c_lbrack); [|discriminate].
+  set (nr := match r with c2 :: r' => if c2 =? c_bang then (true, r') else (false, r) | [] => (false, r) end) in H.
+  assert (Hr : exists c0, r = c0 ++ snd nr).
+  { subst nr. destruct r as [|c2 r']; [exists []; reflexivity|]. destruct (c2 =? c_bang); [exists [c2]; reflexivity|exists []; reflexivity]. }
+  destruct nr as [neg r1]. cbn [snd] in Hr. destruct Hr as [c0 ->].
+  destruct (class_archs (length r1) r1) as [archs r2] eqn:Ea. destruct (class_archs_suffix _ _ _ _ Ea) as [c1 ->].
+  destruct archs as [|a archs]; [discriminate|]. destruct r2 as [|c3 r3]; [discriminate|].
+  destruct (c3 =? c_rbrack); [|discriminate]. inversion H; subst.
+  apply adv_rel_adv.
+  assert (Hs : c :: c0 ++ c1 ++ c3 :: r3 = (c :: c0 ++ c1 ++ [c3]) ++ r3).
+  { cbn [app]. f_equal. rewrite <- !app_assoc. reflexivity. }
+  rewrite E, Hs, consumed_of_app. reflexivity.
+Qed.
+
+Lemma p_wildcard_rel : forall tm i l i', p_wildcard tm i = Some (l, i') -> adv_rel i i'.
+Proof.
+  intros tm i l i' H. unfold p_wildcard in H.
+  destruct (match i_s i with d :: _ => d =? c_qmark | [] => false end).
+  - destruct (i_s i) as [|c r] eqn:E; [discriminate|]. inversion H; subst. apply adv1_rel. exact E.
+  - match type of H with (match ?T with _ => _ end) = _ => destruct T as [[l1 i1]|] eqn:Et end.
+    + inversion H; subst. clear H.
+      match type of Et with (match ?P with _ => _ end) = _ => destruct P as [[root i1]|] eqn:Ep; [|discriminate] end.
+      assert (Hp : adv_rel i i1).
+      { destruct (i_s i) as [|c r] eqn:E.
+        - destruct (i_sub i =? i_pos i); [|discriminate]. inversion Ep; subst. apply flags_with_state_rel.
+        - destruct (c =? SEP).
+          + inversion Ep; subst. eapply adv_trans; [apply (adv1_rel i c r E)|apply flags_with_state_rel].
+          + destruct (i_sub i =? i_pos i); [|discriminate]. inversion Ep; subst. apply flags_with_state_rel. }
+      destruct (i_s i1) as [|c1 [|c2 r]] eqn:E1; try discriminate.
+      destruct ((c1 =? c_star) && (c2 =? c_star)); [|discriminate].
+      set (i2 := adv1 (adv1 i1 c1 (c2 :: r)) c2 r) in *.
+      assert (H2 : adv_rel i i2).
+      { eapply adv_trans; [exact Hp|]. eapply adv_trans; [apply (adv1_rel i1 c1 (c2 :: r) E1)|apply (adv1_rel _ c2 r); reflexivity]. }
+      destruct (i_s (flags_with_state i2)) as [|c3 r3] eqn:E3.
+      * destruct (term_ok tm i2); [|discriminate]. inversion Et; subst. exact H2.
+      * destruct (c3 =? SEP).
+        -- inversion Et; subst. eapply adv_trans; [exact H2|]. eapply adv_trans; [apply flags_with_state_rel|apply adv1_rel; exact E3].
+        -- destruct (term_ok tm i2); [|discriminate]. inversion Et; subst. exact H2.
+    + destruct (i_s i) as [|c r] eqn:E; [discriminate|].
+      destruct (c =? c_star).
+      * destruct (zom_lookahead (adv1 i c r) || term_ok tm (adv1 i c r)); [|discriminate]. inversion H; subst. apply adv1_rel. exact E.
+      * destruct (c =? c_dollar); [|discriminate].
+        destruct (zom_lookahead (adv1 i c r) || term_ok tm (adv1 i c r)); [|discriminate]. inversion H; subst. apply adv1_rel. exact E.
+Qed.
+
+Lemma digits_suffix : forall s d r, digits s = (d, r) -> s = d ++ r.
+Proof.
+  induction s as [|c s IH]; intros d r H; cbn [digits] in H.
+  - inversion H; subst. reflexivity.
+  - destruct (is_digit c).
+    + destruct (digits s) as [d' r'] eqn:E. inversion H; subst. rewrite (IH _ _ eq_refl). reflexivity.
+    + inversion H; subst. reflexivity.
+Qed.
+
+Lemma p_bounds_rel : forall i b i', p_bounds i = (b, i') -> adv_rel i i'.
+Proof.
+  intros i b i' H. unfold p_bounds in H.
+  destruct (i_s i) as [|c r] eqn:E; [injection H as _ <-; apply adv_refl|].
+  destruct (c =? c_colon); [|injection H as _ <-; apply adv_refl].
+  destruct (digits r) as [d1 r1] eqn:Ed. pose proof (digits_suffix _ _ _ Ed) as Hr.
+  assert (H1 : adv_rel i (adv1 i c r)) by (apply adv1_rel; exact E).
+  assert (Hconv : forall b0 i0,
+            (if is_nil d1 then ((1, None), adv1 i c r)
+             else match parse_usize d1 with Some n => ((n, Some n), adv (adv1 i c r) d1 r1) | None => ((1, None), adv1 i c r) end) = (b0, i0) ->
+            adv_rel i i0).
+  { intros b0 i0 H0. destruct (is_nil d1); [injection H0 as _ <-; exact H1|].
+    destruct (parse_usize d1); injection H0 as _ <-; [|exact H1].
+    eapply adv_trans; [exact H1|]. apply adv_rel_adv. exact Hr. }
+  destruct (is_nil d1) eqn:En; [injection H as _ <-; exact H1|].
+  destruct r1 as [|c4 r2]; [apply (Hconv _ _ H)|].
+  destruct (c4 =? c_comma) eqn:Ec; [|apply (Hconv _ _ H)].
+  destruct (digits r2) as [d2 r3] eqn:Ed2. pose proof (digits_suffix _ _ _ Ed2) as Hr2.
+  destruct (parse_usize d1) as [lo|]; [|apply (Hconv _ _ H)].
+  destruct (if is_nil d2 then Some None else option_map Some (parse_usize d2)) as [hi|]; [|apply (Hconv _ _ H)].
+  injection H as _ <-. eapply adv_trans; [exact H1|]. apply adv_rel_adv. cbn [adv1 i_s].
+  apply N.eqb_eq in Ec. rewrite Hr, Hr2, Ec. unfold c_comma. rewrite <- !app_assoc. reflexivity.
+Qed.
+
+(* ---- the recursive grammar ------------------------------------------------------------------------------------------- *)
+Fixpoint spans_ok (e : str) (t : tok) : Prop :=
+  span_ok e (tspan t) /\
+  match t with
+  | TLeaf _ _ => True
+  | TAlt _ bs => (fix go (l : list tok) : Prop := match l with [] => True | x :: l' => spans_ok e x /\ go l' end) bs
+  | TCat _ ts => (fix go (l : list tok) : Prop := match l with [] => True | x :: l' => spans_ok e x /\ go l' end) ts
+  | TRep _ b _ _ => spans_ok e b
+  end.
+
+Fixpoint all_spans_ok (e : str) (l : list tok) : Prop :=
+  match l with [] => True | x :: l' => spans_ok e x /\ all_spans_ok e l' end.
+
+Lemma spans_ok_cat : forall e sp ts, span_ok e sp -> all_spans_ok e ts -> spans_ok e (TCat sp ts).
+Proof.
+  intros e sp ts Hs Ha. cbn [spans_ok tspan]. split; [exact Hs|]. induction ts as [|t ts IH]; [exact I|].
+  destruct Ha as [Ht Ha]. split; [exact Ht|apply IH; exact Ha].
+Qed.
+Lemma spans_ok_alt : forall e sp ts, span_ok e sp -> all_spans_ok e ts -> spans_ok e (TAlt sp ts).
+Proof.
+  intros e sp ts Hs Ha. cbn [spans_ok tspan]. split; [exact Hs|]. induction ts as [|t ts IH]; [exact I|].
+  destruct Ha as [Ht Ha]. split; [exact Ht|apply IH; exact Ha].
+Qed.
+
+Lemma head_test : forall s k c r,
+  (match s with c0 :: r0 => if c0 =? k then Some (c0, r0) else None | [] => None end) = Some (c, r) -> s = c :: r.
+Proof. intros [|c0 r0] k c r H; [discriminate|]. destruct (c0 =? k); inversion H; reflexivity. Qed.
+
+Section Grammar.
+Variable e : str.
+
+Definition tokens_ok (f : nat) : Prop :=
+  forall tm i ts i', p_tokens f tm i = POk (ts, i') -> at_ e i -> adv_rel i i' /\ all_spans_ok e ts.
+Definition token_ok (f : nat) : Prop :=
+  forall tm i t i', p_token f tm i = POk (t, i') -> at_ e i -> adv_rel i i' /\ spans_ok e t.
+Definition branches_ok (f : nat) : Prop :=
+  forall i bs i', p_branches f i = POk (bs, i') -> at_ e i -> adv_rel i i' /\ all_spans_ok e bs.
+Definition glob_ok (f : nat) : Prop :=
+  forall tm i t i', p_glob f tm i = POk (t, i') -> at_ e i -> adv_rel i i' /\ spans_ok e t.
+
+(* the leaf alternatives that follow the branches in p_token *)
+Ltac leaf_done i iF HF Hat lemma :=
+  match goal with
+  | Ex : _ iF = Some (_, ?j) |- adv_rel i ?j /\ _ =>
+      assert (adv_rel i j) by (eapply adv_trans; [exact HF|eapply lemma; exact Ex]);
+      split; [assumption|cbn [spans_ok tspan]; split; [apply mk_span_ok; assumption|exact I]]
+  end.
+
+Ltac leaf_tail H i iF HF Hat :=
+  match type of H with context [p_wildcard ?tm iF] =>
+    let Ew := fresh "Ew" in
+    destruct (p_wildcard tm iF) as [[? ?]|] eqn:Ew; cbn [leaf_tok] in H;
+    [ inversion H; subst; clear H; leaf_done i iF HF Hat p_wildcard_rel
+    | let Ec := fresh "Ec" in
+      destruct (p_class iF) as [[? ?]|] eqn:Ec; cbn [leaf_tok] in H;
+      [ inversion H; subst; clear H; clear Ew; leaf_done i iF HF Hat p_class_rel
+      | let Es := fresh "Es" in
+        match type of H with (match ?T with _ => _ end) = _ =>
+          destruct T as [[? ?]|] eqn:Es; [|discriminate];
+          apply head_test in Es; inversion H; subst; clear H;
+          match goal with Es' : i_s iF = ?c :: ?r |- _ =>
+            assert (adv_rel i (adv1 iF c r)) by (eapply adv_trans; [exact HF|apply adv1_rel; exact Es']);
+            split; [assumption|cbn [spans_ok tspan]; split; [apply mk_span_ok; assumption|exact I]]
+          end
+        end ] ]
+  end.
+
+Lemma step_ok : forall f, tokens_ok f -> token_ok f -> branches_ok f -> glob_ok f ->
+  tokens_ok (S f) /\ token_ok (S f) /\ branches_ok (S f) /\ glob_ok (S f).
+Proof.
+  intros f IHts IHt IHb IHg. split; [|split; [|split]].
+  - (* p_tokens *)
+    intros tm i ts i' H Hat. cbn [p_tokens] in H.
+    destruct (p_token f tm i) as [[t i1]| |] eqn:Et; [| |discriminate].
+    + destruct (IHt _ _ _ _ Et Hat) as [Ha Hs].
+      destruct (p_tokens f tm i1) as [[ts' i2]| |] eqn:Ets; try discriminate. inversion H; subst.
+      destruct (IHts _ _ _ _ Ets (at_adv _ _ _ Hat Ha)) as [Ha' Hs']. split; [eapply adv_trans; eassumption|]. split; assumption.
+    + inversion H; subst. split; [apply adv_refl|exact I].
+  - (* p_token *)
+    intros tm i t i' H Hat. cbn [p_token] in H.
+    set (iF := flags_with_state i) in *.
+    assert (HF : adv_rel i iF) by apply flags_with_state_rel.
+    assert (HatF : at_ e iF) by (eapply at_adv; eassumption).
+    destruct (p_literal iF) as [[l1 i1]|] eqn:El; cbn [leaf_tok] in H.
+    { inversion H; subst. assert (adv_rel i i') by (eapply adv_trans; [exact HF|eapply p_literal_rel; exact El]).
+      split; [assumption|]. cbn [spans_ok tspan]. split; [apply mk_span_ok; assumption|exact I]. }
+    (* the alternation and what follows it, used after every way the repetition can fail *)
+    assert (AltTail :
+      match
+        match (match i_s iF with c :: r => if c =? c_lbrace then Some (c, r) else None | [] => None end) with
+        | Some (c, r) =>
+            match p_branches f (adv1 iF c r) with
+            | PFuel => PFuel
+            | PErr => POk None
+            | POk (bs, i1) => match tag1 c_rbrace i1 with Some i2 => POk (Some (TAlt (mk_span i i2) bs, i2)) | None => POk None end
+            end
+        | None => POk None
+        end
+      with
+      | PFuel => PFuel
+      | PErr => PErr
+      | POk (Some x) => POk x
+      | POk None =>
+          match leaf_tok i (p_wildcard tm iF) with
+          | Some x => POk x
+          | None => match leaf_tok i (p_class iF) with
+                    | Some x => POk x
+                    | None => match (match i_s iF with c :: r => if c =? SEP then Some (c, r) else None | [] => None end) with
+                              | Some (c, r) => POk (TLeaf (mk_span i (adv1 iF c r)) LSep, adv1 iF c r)
+                              | None => PErr
+                              end
+                    end
+          end
+      end = POk (t, i') -> adv_rel i i' /\ spans_ok e t).
+    { intros HA.
+      destruct (match i_s iF with c :: r => if c =? c_lbrace then Some (c, r) else None | [] => None end) as [[c r]|] eqn:Elb.
+      - apply head_test in Elb.
+        destruct (p_branches f (adv1 iF c r)) as [[bs i1]| |] eqn:Eb; [| |discriminate].
+        + assert (Ha1 : adv_rel i (adv1 iF c r)) by (eapply adv_trans; [exact HF|apply adv1_rel; exact Elb]).
+          destruct (IHb _ _ _ Eb (at_adv _ _ _ Hat Ha1)) as [Hab Hsb].
+          destruct (tag1 c_rbrace i1) as [i2|] eqn:Etg.
+          * inversion HA; subst. apply tag1_rel in Etg.
+            assert (adv_rel i i') by (eapply adv_trans; [exact Ha1|eapply adv_trans; eassumption]).
+            split; [assumption|]. apply spans_ok_alt; [apply mk_span_ok; assumption|exact Hsb].
+          * leaf_tail HA i iF HF Hat.
+        + leaf_tail HA i iF HF Hat.
+      - leaf_tail HA i iF HF Hat. }
+    destruct (match i_s iF with c :: r => if c =? c_lt then Some (c, r) else None | [] => None end) as [[c r]|] eqn:Elt.
+    + apply head_test in Elt.
+      destruct (p_glob f TermRep (adv1 iF c r)) as [[body i1]| |] eqn:Eg; [| |discriminate].
+      * assert (Ha1 : adv_rel i (adv1 iF c r)) by (eapply adv_trans; [exact HF|apply adv1_rel; exact Elt]).
+        destruct (IHg _ _ _ _ Eg (at_adv _ _ _ Hat Ha1)) as [Hag Hsg].
+        destruct (p_bounds i1) as [[lo hi] i2] eqn:Ebd. pose proof (p_bounds_rel _ _ _ Ebd) as Hab.
+        destruct (tag1 c_gt i2) as [i3|] eqn:Etg.
+        -- inversion H; subst. apply tag1_rel in Etg.
+           assert (adv_rel i i') by (eapply adv_trans; [exact Ha1|eapply adv_trans; [exact Hag|eapply adv_trans; eassumption]]).
+           split; [assumption|]. cbn [spans_ok tspan]. split; [apply mk_span_ok; assumption|exact Hsg].
+        -- apply AltTail. exact H.
+      * apply AltTail. exact H.
+    + apply AltTail. exact H.
+  - (* p_branches *)
+    intros i bs i' H Hat. cbn [p_branches] in H.
+    destruct (p_glob f TermAlt i) as [[b i1]| |] eqn:Eg; try discriminate.
+    destruct (IHg _ _ _ _ Eg Hat) as [Hag Hsg].
+    destruct (match i_s i1 with c :: r => if c =? c_comma then Some (c, r) else None | [] => None end) as [[c r]|] eqn:Ec.
+    + apply head_test in Ec.
+      destruct (p_branches f (adv1 i1 c r)) as [[bs' i2]| |] eqn:Eb; [| |discriminate].
+      * inversion H; subst.
+        assert (Ha1 : adv_rel i (adv1 i1 c r)) by (eapply adv_trans; [exact Hag|apply adv1_rel; exact Ec]).
+        destruct (IHb _ _ _ Eb (at_adv _ _ _ Hat Ha1)) as [Hab Hsb].
+        split; [eapply adv_trans; eassumption|]. split; assumption.
+      * inversion H; subst. split; [exact Hag|]. split; [exact Hsg|exact I].
+    + inversion H; subst. split; [exact Hag|]. split; [exact Hsg|exact I].
+  - (* p_glob *)
+    intros tm i t i' H Hat. cbn [p_glob] in H.
+    destruct (p_tokens f tm (set_sub i)) as [[ts i1]| |] eqn:Ets; try discriminate.
+    assert (Hs : adv_rel i (set_sub i)) by apply set_sub_rel.
+    destruct (IHts _ _ _ _ Ets (at_adv _ _ _ Hat Hs)) as [Ha Hok].
+    destruct ts as [|t0 ts']; [discriminate|]. destruct (term_ok tm i1); [|discriminate]. inversion H; subst.
+    split; [exact (adv_trans _ _ _ Hs Ha)|]. apply spans_ok_cat; [|exact Hok].
+    apply mk_span_ok; [exact (at_adv _ _ _ Hat Hs)|exact Ha].
+Qed.
+
+Theorem grammar_ok : forall f, tokens_ok f /\ token_ok f /\ branches_ok f /\ glob_ok f.
+Proof.
+  induction f as [|f [H1 [H2 [H3 H4]]]].
+  - split; [|split; [|split]]; intro; intros; cbn in *; discriminate.
+  - apply step_ok; assumption.
+Qed.
+
+End Grammar.
+
+(* ---- the entry point -------------------------------------------------------------------------------------------------- *)
+Lemma err_span_ok : forall e j, at_ e j -> span_ok e (err_span (i_pos j) (i_s j)).
+Proof.
+  intros e j [pre [He Hp]]. destruct (i_s j) as [|c r] eqn:E; cbn [err_span].
+  - exists pre, [], []. rewrite He. cbn [fst snd blen app]. split; [rewrite app_nil_r; reflexivity|]. split; [exact Hp|reflexivity].
+  - exists pre, [c], r. rewrite He. cbn [fst snd blen app]. split; [reflexivity|]. split; [exact Hp|lia].
+Qed.
+
+Lemma at_init : forall e, at_ e (init_input e).
+Proof. intros e. exists []. split; reflexivity. Qed.
+
+(* C17: every span of the token tree of an expression that parses delimits whole characters of the expression *)
+Theorem parse_spans_ok : forall e t, parse e = ParseOk t -> spans_ok e t.
+Proof.
+  intros e t H. unfold parse in H. destruct e as [|c e'].
+  - inversion H; subst. cbn. split; [|exact I]. exists [], [], []. repeat split.
+  - set (e := c :: e') in *.
+    destruct (p_tokens (parse_fuel e) TermTop (set_sub (init_input e))) as [[ts i1]| |] eqn:Ep; try discriminate.
+    destruct (grammar_ok e (parse_fuel e)) as [Hts _].
+    assert (Hat : at_ e (set_sub (init_input e))) by (eapply at_adv; [apply at_init|apply set_sub_rel]).
+    destruct (Hts _ _ _ _ Ep Hat) as [Ha Hok].
+    destruct ts as [|t0 ts']; [discriminate|]. destruct (i_s i1) as [|c1 r1] eqn:Es; [|discriminate].
+    inversion H; subst. apply spans_ok_cat; [|exact Hok].
+    destruct (at_adv _ _ _ Hat Ha) as [pre [He Hp]]. rewrite Es, app_nil_r in He.
+    exists [], e, []. cbn [fst snd blen app]. rewrite app_nil_r. split; [reflexivity|]. split; [reflexivity|]. rewrite Hp, He. reflexivity.
+Qed.
+
+(* and every location of a parse error covers one whole character of the expression, or nothing at its end *)
+Theorem parse_error_spans_ok : forall e locs, parse e = ParseErr locs -> Forall (span_ok e) locs.
+Proof.
+  intros e locs H. unfold parse in H. destruct e as [|c e']; [discriminate|].
+  set (e := c :: e') in *.
+  destruct (p_tokens (parse_fuel e) TermTop (set_sub (init_input e))) as [[ts i1]| |] eqn:Ep; try discriminate.
+  - destruct (grammar_ok e (parse_fuel e)) as [Hts _].
+    assert (Hat : at_ e (set_sub (init_input e))) by (eapply at_adv; [apply at_init|apply set_sub_rel]).
+    destruct (Hts _ _ _ _ Ep Hat) as [Ha Hok].
+    destruct ts as [|t0 ts'].
+    + inversion H; subst.
+      assert (HF : at_ e (flags_with_state (init_input e))) by (eapply at_adv; [apply at_init|apply flags_with_state_rel]).
+      pose proof (err_span_ok e _ (at_init e)) as H0. cbn [init_input i_pos i_s] in H0.
+      repeat constructor; try exact H0. apply err_span_ok. exact HF.
+    + destruct (i_s i1) as [|c1 r1] eqn:Es; [discriminate|]. inversion H; subst.
+      constructor; [|constructor]. change (i_pos i1, utf8_len c1) with (err_span (i_pos i1) (c1 :: r1)). rewrite <- Es. apply err_span_ok. exact (at_adv _ _ _ Hat Ha).
+  - inversion H; subst. constructor.
+Qed.
+
+(* the spans reported for the capturing sub-expressions are spans of the tree *)
+Lemma spans_ok_span : forall e t, spans_ok e t -> span_ok e (tspan t).
+Proof. intros e t H. destruct t; cbn [spans_ok] in H; apply H. Qed.
+
+Lemma all_spans_in : forall e ts t, all_spans_ok e ts -> In t ts -> spans_ok e t.
+Proof.
+  induction ts as [|x ts IH]; intros t H Hin; [contradiction|]. destruct H as [Hx Hts].
+  destruct Hin as [<-|Hin]; [exact Hx|apply IH; assumption].
+Qed.
+
+(* ---- rule errors: their spans are spans of tokens, or the union of the spans of two tokens ------------------------------- *)
+From WaxModel Require Import Variance Fold Rule.
+
+Lemma prefixes_comparable : forall (a b x y : str), a ++ x = b ++ y -> blen a <= blen b -> exists z, b = a ++ z.
+Proof.
+  induction a as [|c a IH]; intros b x y H Hl.
+  - exists b. reflexivity.
+  - destruct b as [|d b].
+    + cbn [blen] in Hl. pose proof (utf8_len_pos c). lia.
+    + cbn [app] in H. inversion H; subst. cbn [blen] in Hl. destruct (IH b x y H2) as [z ->]; [lia|]. exists z. reflexivity.
+Qed.
+
+(* a byte offset that is the length of a prefix of the expression *)
+Definition boundary_of (e : str) (n : N) : Prop := exists pre post, e = pre ++ post /\ n = blen pre.
+
+Lemma span_ok_iff : forall e s n, span_ok e (s, n) <-> boundary_of e s /\ boundary_of e (s + n).
+Proof.
+  intros e s n. split.
+  - intros [pre [mid [post [He [Hs Hn]]]]]. cbn [fst snd] in *. split.
+    + exists pre, (mid ++ post). auto.
+    + exists (pre ++ mid), post. split; [rewrite He; apply app_assoc|]. rewrite blen_app. lia.
+  - intros [[p1 [q1 [H1 E1]]] [p2 [q2 [H2 E2]]]].
+    destruct (prefixes_comparable p1 p2 q1 q2) as [z Hz]; [rewrite <- H1, <- H2; reflexivity|lia|].
+    exists p1, z, q2. cbn [fst snd]. split; [rewrite H2, Hz; symmetry; apply app_assoc|]. split; [exact E1|].
+    rewrite Hz, blen_app in E2. lia.
+Qed.
+
+Lemma span_union_ok : forall e a b, span_ok e a -> span_ok e b -> span_ok e (span_union a b).
+Proof.
+  intros e [s1 n1] [s2 n2] Ha Hb. apply span_ok_iff in Ha. apply span_ok_iff in Hb.
+  destruct Ha as [Ha1 Ha2], Hb as [Hb1 Hb2]. unfold span_union. cbn [fst snd]. apply span_ok_iff. split.
+  - destruct (N.min_spec s1 s2) as [[_ ->]|[_ ->]]; assumption.
+  - replace (N.min s1 s2 + (N.max (s1 + n1) (s2 + n2) - N.min s1 s2)) with (N.max (s1 + n1) (s2 + n2)) by lia.
+    destruct (N.max_spec (s1 + n1) (s2 + n2)) as [[_ ->]|[_ ->]]; assumption.
+Qed.
+
+Lemma spans_ok_children : forall e t, spans_ok e t -> all_spans_ok e (children t).
+Proof.
+  intros e t H. destruct t as [sp l|sp bs|sp ts|sp b lo hi]; cbn [spans_ok children] in *.
+  - exact I.
+  - destruct H as [_ H]. induction bs as [|x bs IH]; [exact I|]. destruct H as [Hx H]. split; [exact Hx|apply IH; exact H].
+  - destruct H as [_ H]. induction ts as [|x ts IH]; [exact I|]. destruct H as [Hx H]. split; [exact Hx|apply IH; exact H].
+  - destruct H as [_ H]. split; [exact H|exact I].
+Qed.
+
+Lemma all_spans_app : forall e a b, all_spans_ok e a -> all_spans_ok e b -> all_spans_ok e (a ++ b).
+Proof. induction a as [|x a IH]; intros b Ha Hb; [exact Hb|]. destruct Ha as [Hx Ha]. split; [exact Hx|apply IH; assumption]. Qed.
+
+Lemma all_spans_flat_children : forall e l, all_spans_ok e l -> all_spans_ok e (flat_map children l).
+Proof.
+  induction l as [|x l IH]; intros H; [exact I|]. destruct H as [Hx H]. cbn [flat_map].
+  apply all_spans_app; [apply spans_ok_children; exact Hx|apply IH; exact H].
+Qed.
+
+Lemma bfs_levels_ok : forall e fuel level, all_spans_ok e level -> all_spans_ok e (bfs_levels fuel level).
+Proof.
+  induction fuel as [|f IH]; intros level H; cbn [bfs_levels]; [exact H|].
+  destruct level as [|x l]; [exact I|]. apply all_spans_app; [exact H|]. apply IH. apply all_spans_flat_children. exact H.
+Qed.
+
+Lemma bfs_ok : forall e t, spans_ok e t -> all_spans_ok e (bfs t).
+Proof. intros e t H. unfold bfs. apply bfs_levels_ok. split; [exact H|exact I]. Qed.
+
+Lemma adjacent_boundary_ok : forall e ts sp, all_spans_ok e ts -> adjacent_boundary ts = Some sp -> span_ok e sp.
+Proof.
+  induction ts as [|a ts IH]; intros sp H Hs; [discriminate|]. destruct ts as [|b ts']; [discriminate|].
+  change (adjacent_boundary (a :: b :: ts')) with
+    (if is_boundary a && is_boundary b then Some (span_union (tspan a) (tspan b)) else adjacent_boundary (b :: ts')) in Hs.
+  destruct H as [Ha [Hb Hts]]. destruct (is_boundary a && is_boundary b).
+  - inversion Hs; subst. apply span_union_ok; apply spans_ok_span; assumption.
+  - apply IH; [split; assumption|exact Hs].
+Qed.
+
+Lemma all_spans_cat_children : forall e sp ts, spans_ok e (TCat sp ts) -> all_spans_ok e ts.
+Proof. intros e sp ts H. exact (spans_ok_children e (TCat sp ts) H). Qed.
+
+Lemma concatenation_ok : forall e t, spans_ok e t -> all_spans_ok e (concatenation t).
+Proof.
+  intros e t H. destruct t as [sp l|sp bs|sp ts|sp b lo hi]; cbn [concatenation]; try (split; [exact H|exact I]).
+  apply (all_spans_cat_children e sp ts H).
+Qed.
+
+(* the breadth-first branch check only ever reports the span of a token of the tree *)
+Lemma branch_item_ok : forall e o t err more,
+  spans_ok e t -> branch_item (o, t) = (err, more) ->
+  (forall k sp, err = Some (k, sp) -> span_ok e sp) /\ all_spans_ok e (map snd more).
+Proof.
+  intros e o t err more Ht H. unfold branch_item in H.
+  pose proof (concatenation_ok e t Ht) as Hc.
+  assert (G : forall adjs acc_err acc_q,
+            (forall x, In x adjs -> spans_ok e (snd (fst x))) ->
+            (forall k sp, acc_err = Some (k, sp) -> span_ok e sp) -> all_spans_ok e (map snd acc_q) ->
+            forall err' more',
+            fold_left
+              (fun (acc : option (rule_kind * span) * list (outer * tok)) (x : option tok * tok * option tok) =>
+                 let '(err0, q) := acc in
+                 let '(l, t0, r) := x in
+                 match t0 with
+                 | TAlt sp bs =>
+                     let o0 := outer_or o l r in
+                     let e0 := first_some_l
+                                 (fun b => match terminals_of (concatenation b) with
+                                           | Some tm => opt_first (check_branch tm o0) (check_alternation tm o0)
+                                           | None => None
+                                           end) bs in
+                     (opt_first err0 (option_map (fun k => (k, sp)) e0), q ++ map (fun b => (o0, b)) bs)
+                 | TRep sp b lo hi =>
+                     let o0 := outer_or o l r in
+                     let e0 := match terminals_of (concatenation b) with
+                               | Some tm => opt_first (check_branch tm o0) (check_repetition tm o0 lo hi)
+                               | None => None
+                               end in
+                     (opt_first err0 (option_map (fun k => (k, sp)) e0), q ++ [(o0, b)])
+                 | _ => acc
+                 end) adjs (acc_err, acc_q) = (err', more') ->
+            (forall k sp, err' = Some (k, sp) -> span_ok e sp) /\ all_spans_ok e (map snd more')).
+  { induction adjs as [|[[l t0] r] adjs IH]; intros acc_err acc_q Hin Herr Hq err' more' Hf.
+    - cbn [fold_left] in Hf. inversion Hf; subst. split; assumption.
+    - cbn [fold_left] in Hf.
+      assert (Ht0 : spans_ok e t0) by (apply (Hin (l, t0, r)); left; reflexivity).
+      assert (Hin' : forall x, In x adjs -> spans_ok e (snd (fst x))) by (intros x Hx; apply Hin; right; exact Hx).
+      destruct t0 as [sp l0|sp bs|sp ts|sp b lo hi].
+      + eapply IH; eassumption.
+      + eapply IH; [exact Hin'| | |exact Hf].
+        * intros k sp0 Hk. destruct acc_err as [[k0 sp1]|]; cbn [opt_first] in Hk.
+          -- inversion Hk; subst. eapply Herr. reflexivity.
+          -- destruct (first_some_l _ bs); cbn [option_map] in Hk; [|discriminate]. inversion Hk; subst. apply (spans_ok_span e _ Ht0).
+        * rewrite map_app. apply all_spans_app; [exact Hq|]. rewrite map_map. cbn [snd]. rewrite map_id.
+          apply (spans_ok_children e _ Ht0).
+      + eapply IH; eassumption.
+      + eapply IH; [exact Hin'| | |exact Hf].
+        * intros k sp0 Hk. destruct acc_err as [[k0 sp1]|]; cbn [opt_first] in Hk.
+          -- inversion Hk; subst. eapply Herr. reflexivity.
+          -- destruct (terminals_of (concatenation b)) as [tm|]; [|discriminate].
+             destruct (opt_first (check_branch tm _) (check_repetition tm _ lo hi)); cbn [option_map] in Hk; [|discriminate].
+             inversion Hk; subst. apply (spans_ok_span e _ Ht0).
+        * rewrite map_app. apply all_spans_app; [exact Hq|]. cbn [map snd]. apply (spans_ok_children e _ Ht0). }
+  eapply G; [| | |exact H].
+  - intros x Hx. unfold adjacent in Hx.
+    assert (Ga : forall ts left0 x0, all_spans_ok e ts -> In x0 (adjacent_aux left0 ts) -> spans_ok e (snd (fst x0))).
+    { induction ts as [|a ts IHa]; intros left0 x0 Hts Hx0; [contradiction|]. destruct Hts as [Ha Hts]. cbn [adjacent_aux] in Hx0.
+      destruct Hx0 as [<-|Hx0]; [exact Ha|]. eapply IHa; eassumption. }
+    eapply Ga; eassumption.
+  - intros k sp Hk. discriminate.
+  - exact I.
+Qed.
+
+Lemma branch_loop_ok : forall e fuel queue k sp,
+  all_spans_ok e (map snd queue) -> branch_loop fuel queue = Some (k, sp) -> span_ok e sp.
+Proof.
+  induction fuel as [|f IH]; intros queue k sp Hq H; cbn [branch_loop] in H; [discriminate|].
+  destruct queue as [|[o t] rest]; [discriminate|]. cbn [map snd] in Hq. destruct Hq as [Ht Hrest].
+  destruct (branch_item (o, t)) as [err more] eqn:Eb. destruct (branch_item_ok e o t err more Ht Eb) as [Herr Hmore].
+  destruct err as [[k0 sp0]|].
+  - inversion H; subst. eapply Herr. reflexivity.
+  - eapply IH; [|exact H]. rewrite map_app. apply all_spans_app; assumption.
+Qed.
+
+(* C17: the span of every rule error indexes the expression safely *)
+Theorem rule_error_span_ok : forall e t k sp, spans_ok e t -> check t = Ok (Some (k, sp)) -> span_ok e sp.
+Proof.
+  intros e t k sp Ht H. unfold check in H. pose proof (bfs_ok e t Ht) as Hb.
+  destruct (rule_boundary t) as [[k0 sp0]|] eqn:E1.
+  - inversion H; subst. unfold rule_boundary in E1.
+    destruct (first_some_l (fun x => match x with TCat _ ts => adjacent_boundary ts | _ => None end) (bfs t)) as [sp1|] eqn:Ef; [|discriminate].
+    inversion E1; subst.
+    assert (G : forall l, all_spans_ok e l -> first_some_l (fun x => match x with TCat _ ts => adjacent_boundary ts | _ => None end) l = Some sp -> span_ok e sp).
+    { induction l as [|x l IH]; intros Hl Hf; [discriminate|]. destruct Hl as [Hx Hl]. cbn [first_some_l] in Hf.
+      destruct x as [s0 l0|s0 bs|s0 ts|s0 b lo hi]; try (apply IH; assumption).
+      destruct (adjacent_boundary ts) as [sp2|] eqn:Ea; [|apply IH; assumption].
+      inversion Hf; subst. eapply adjacent_boundary_ok; [|exact Ea]. apply (all_spans_cat_children e s0 ts Hx). }
+    eapply G; eassumption.
+  - destruct (rule_bounds t) as [[k0 sp0]|] eqn:E2.
+    + inversion H; subst. unfold rule_bounds in E2. destruct (find bad_bounds (bfs t)) as [x|] eqn:Ef; [|discriminate].
+      inversion E2; subst. apply find_some in Ef. destruct Ef as [Hin _]. apply spans_ok_span. eapply all_spans_in; eassumption.
+    + destruct (rule_branch t) as [[k0 sp0]|] eqn:E3.
+      * inversion H; subst. unfold rule_branch in E3. eapply branch_loop_ok; [|exact E3]. cbn [map snd]. split; [exact Ht|exact I].
+      * unfold rule_size in H.
+        assert (G : forall l, all_spans_ok e l -> rule_size_list l = Ok (Some (k, sp)) -> span_ok e sp).
+        { induction l as [|x l IH]; intros Hl Hs; [discriminate|]. destruct Hl as [Hx Hl]. cbn [rule_size_list rbind] in Hs.
+          destruct (size_variance x) as [v|]; [|discriminate]. cbn [rbind] in Hs.
+          destruct v as [n|b]; [|apply IH; assumption].
+          destruct (MAX_INVARIANT_SIZE <=? n); [|apply IH; assumption]. inversion Hs; subst. apply spans_ok_span. exact Hx. }
+        eapply G; eassumption.
+Qed.
+
+(* ---- capture spans ------------------------------------------------------------------------------------------------------ *)
+From WaxModel Require Import Regex Encode Query.
+
+Lemma number_from_in : forall l n c, In c (number_from n l) -> exists x, In x l /\ snd c = tspan x.
+Proof.
+  induction l as [|t l IH]; intros n c H; [contradiction|]. cbn [number_from] in H. destruct H as [<-|H].
+  - exists t. split; [left; reflexivity|reflexivity].
+  - destruct (IH _ _ H) as [x [Hx Hs]]. exists x. split; [right; exact Hx|exact Hs].
+Qed.
+
+Theorem capture_spans_ok : forall e t c, spans_ok e t -> In c (captures t) -> span_ok e (snd c).
+Proof.
+  intros e t c Ht Hc. unfold captures in Hc. apply number_from_in in Hc. destruct Hc as [x [Hx ->]].
+  apply filter_In in Hx. destruct Hx as [Hx _]. apply spans_ok_span. eapply all_spans_in; [apply concatenation_ok; exact Ht|exact Hx].
+Qed.
